@@ -1313,7 +1313,9 @@ func (s *sharedEntryAttributes) populateChoiceCaseResolvers(ctx context.Context)
 
 			if val2 != nil && v >= *val2 {
 				v = *val2
-				isNew = true
+				// a contribution of the tree is new, unless the branch was stored with that very precedence already
+				// before the transaction (e.g. an intent that is applied again). It then is what the case had before.
+				isNew = *val2 != s.treeContext.GetTreeSchemaCacheClient().GetBranchesHighesPrecedence(ctx, append(s.Path(), elem))
 			}
 			choiceResolver.SetValue(elem, v, isNew)
 		}
